@@ -8,8 +8,10 @@ package evaluator
 // evalFrame: heap classes no evaluation step ever changes for objects that already exist:
 // the AST and tokens, the shape of the scope chain, the evaluator's wiring, and the payload of
 // basic values (basic values are immutable once built: variables change by rebinding only).
-//@ frameset evalFrame = parser., lexer., evaluator.scope.outer, evaluator.scope.values, evaluator.Evaluator.global, evaluator.Evaluator.builtins, evaluator.Evaluator.yielder, evaluator.numVal.V, evaluator.stringVal.V, evaluator.boolVal.V, evaluator.anyVal.T, evaluator.anyVal.V, evaluator.Error, elem:parser.Node, elem:*parser.ConditionalBlock, elem:*parser.Var, elem:string@parser.MapLiteral.Order, map:string:parser.Node
+//@ frameset evalFrame = parser., lexer., evaluator.scope.outer, evaluator.scope.values, evaluator.Evaluator.global, evaluator.Evaluator.builtins, evaluator.Evaluator.yielder, evaluator.numVal.V, evaluator.stringVal.V, evaluator.boolVal.V, evaluator.anyVal.T, evaluator.anyVal.V, evaluator.Error, elem:parser.Node, elem:*parser.ConditionalBlock, elem:*parser.Var, elem:string@parser.MapLiteral.Order, map:string:parser.Node, map:string:evaluator.builtin
 
+// builtinFrame: what a built-in function additionally cannot reach (it is handed a scope, never the evaluator).
+//@ frameset builtinFrame = evalFrame, evaluator.Evaluator.scope, evaluator.Evaluator.eventHandlers
 //@ typeinv Evaluator: self.scope != nil && self.global != nil
 // *Error reports the wrapped error through Unwrap.
 //@ unwraps Error err
@@ -482,6 +484,82 @@ package evaluator
 //@   trusted
 //@   requires scope != nil
 //@   ensures storeOK()
-//@   ensures err == nil ==> r != nil && ref(r) != 0
+//@   ensures err == nil ==> r != nil && ref(r) != 0 && !is(r, *returnVal) && !is(r, *breakVal)
 //@   ensures err != nil ==> r == nil
+//@   modifies allbut builtinFrame
+
+//@ global forall(s, *parser.StepRange, wf(parser.Node(s)) ==> s != nil && s.Stop != nil && wf(s.Stop) && isExpr(s.Stop) && (s.Start != nil ==> wf(s.Start) && isExpr(s.Start)) && (s.Step != nil ==> wf(s.Step) && isExpr(s.Step)))
+//@ global forall(l, *parser.NumLiteral, l != nil ==> wf(parser.Node(l)) && isExpr(parser.Node(l)))
+//@ global forall(f, *parser.ForStmt, wf(parser.Node(f)) ==> (is(f.Range, *parser.StepRange) || isExpr(f.Range)) && ref(f.Range) != 0 && (f.LoopVar != nil ==> f.LoopVar.T != nil))
+
+//@ func (e *Evaluator) newStepRange(r *parser.StepRange, loopVar *parser.Var) (rg ranger, err error)
+//@   props C10 C14 C02
+//@   requires wf(parser.Node(r)) && storeOK()
+//@   let sr = rg.(*stepRange)
+//@   ensures[C02 store] storeOK()
+//@   ensures[C10 scope-restored] e.scope == old(e.scope)
+//@   ensures[C10 evaluated-once-in-order] ncalls("(*Evaluator).evalNum") <= 3 && (pending() == nil ==> ncalls("(*Evaluator).evalNum") == 3)
+//@   ensures[C10 start-stop-step] ncalls("(*Evaluator).evalNum") == 3 ==> (r.Start != nil ==> callarg("(*Evaluator).evalNum", 1, 1) == r.Start) && callarg("(*Evaluator).evalNum", 2, 1) == r.Stop && (r.Step != nil ==> callarg("(*Evaluator).evalNum", 3, 1) == r.Step)
+//@   ensures[C10 range-kind] err == nil ==> is(rg, *stepRange) && fresh(rg)
+//@   ensures[C10 range] err == nil ==> same(sr.cur, callres("(*Evaluator).evalNum", 1, 0).(float64)) && same(sr.stop, callres("(*Evaluator).evalNum", 2, 0).(float64)) && same(sr.step, callres("(*Evaluator).evalNum", 3, 0).(float64))
+//@   ensures[C10 zero-step-panics] pending() == nil && ncalls("(*Evaluator).evalNum") == 3 && callres("(*Evaluator).evalNum", 3, 0).(float64) == 0.0 ==> rg == nil && wraps(err, ErrRangevalue) && wraps(err, ErrPanic)
+//@   ensures[C10 nonzero-step-ok] pending() == nil && ncalls("(*Evaluator).evalNum") == 3 && !(callres("(*Evaluator).evalNum", 3, 0).(float64) == 0.0) ==> err == nil
+//@   ensures[C10 loopvar] err == nil && loopVar != nil && loopVar.Name != "_" ==> has(e.scope.values, loopVar.Name) && is(e.scope.values[loopVar.Name], *numVal)
+//@   ensures[C02 error-no-value] err != nil ==> rg == nil
 //@   modifies allbut evalFrame
+//@   propagates (*Evaluator).evalNum
+
+//@ global parser.NUM_TYPE != nil && parser.STRING_TYPE != nil && parser.BOOL_TYPE != nil && parser.ANY_TYPE != nil && parser.NONE_TYPE != nil
+
+//@ func zero(t *parser.Type) (r value)
+//@   props C02 C10
+//@   requires t != nil
+//@   ensures[C02 zero-value] okValue(r) && fresh(r)
+//@   ensures[C10 zero-kind] (t == parser.NUM_TYPE ==> is(r, *numVal)) && (t == parser.STRING_TYPE && t != parser.NUM_TYPE ==> is(r, *stringVal))
+//@   modifies nothing
+//@   panics
+
+//@ func (e *Evaluator) newRange(f *parser.ForStmt) (rg ranger, err error)
+//@   props C10 C12 C14 C02
+//@   requires wf(parser.Node(f)) && storeOK()
+//@   let rv = callres("(*Evaluator).eval", 1, 0)
+//@   ensures[C02 store] storeOK()
+//@   ensures[C10 scope-restored] e.scope == old(e.scope)
+//@   ensures[C10 array] err == nil && !is(f.Range, *parser.StepRange) && is(rv, *arrayVal) ==> is(rg, *arrayRange) && fresh(rg) && rg.(*arrayRange).array == rv.(*arrayVal) && rg.(*arrayRange).cur == 0
+//@   ensures[C10 string] err == nil && !is(f.Range, *parser.StepRange) && is(rv, *stringVal) ==> is(rg, *stringRange) && fresh(rg) && rg.(*stringRange).str == rv.(*stringVal) && rg.(*stringRange).cur == 0 && base(rg.(*stringRange).runes) == 0
+//@   ensures[C12 C10 map-snapshot] err == nil && !is(f.Range, *parser.StepRange) && is(rv, *mapVal) ==> is(rg, *mapRange) && fresh(rg) && rg.(*mapRange).mapVal == rv.(*mapVal) && rg.(*mapRange).cur == 0 && fresh(rg.(*mapRange).order) && len(rg.(*mapRange).order) == len(*rv.(*mapVal).Order) && forall(i, int, 0 <= i && i < len(rg.(*mapRange).order) ==> rg.(*mapRange).order[i] == (*rv.(*mapVal).Order)[i])
+//@   ensures[C10 loopvar] err == nil && f.LoopVar != nil && f.LoopVar.Name != "_" ==> has(e.scope.values, f.LoopVar.Name)
+//@   ensures[C02 error-no-value] err != nil ==> rg == nil
+//@   ensures[C02 ranger] err == nil ==> rg != nil && ref(rg) != 0
+//@   modifies allbut evalFrame
+//@   propagates (*Evaluator).eval (*Evaluator).newStepRange
+
+//@ func (e *Evaluator) evalFor(f *parser.ForStmt) (r value, err error)
+//@   props C10 C14 C02
+//@   requires wf(parser.Node(f)) && storeOK()
+//@   ensures[C02 store] storeOK()
+//@   ensures[C10 scope-restored] e.scope == old(e.scope)
+//@   ensures[C10 break-stays-inside] !is(r, *breakVal)
+//@   ensures[C10 signal] err == nil && r != nil ==> is(r, *returnVal) || is(r, *noneVal)
+//@   ensures[C02 error-no-value] err != nil ==> r == nil
+//@   modifies allbut evalFrame
+//@   propagates (*Evaluator).eval (*Evaluator).newRange
+//@   loop 1 invariant pending() == nil && storeOK() && e.scope != nil && e.scope.outer == old(e.scope) && r != nil && ref(r) != 0
+
+// A user-defined function or built-in call (docs/spec.md, Functions).
+//@ global forall(c, *parser.FuncCall, wf(parser.Node(c)) && !isBuiltinName(c.Name) ==> c.FuncDef != nil && c.FuncDef.Body != nil && wf(parser.Node(c.FuncDef.Body)) && (c.FuncDef.VariadicParam == nil ==> len(c.FuncDef.Params) == len(c.Arguments)) && (c.FuncDef.VariadicParam != nil ==> len(c.FuncDef.Params) == 0) && forall(i, int, 0 <= i && i < len(c.FuncDef.Params) ==> c.FuncDef.Params[i] != nil))
+//@ global forall(c, *parser.FuncCall, wf(parser.Node(c)) && c.Name == "test" ==> len(c.Arguments) >= 1)
+//@ global forall(ev, *Evaluator, forall(n, string, has(ev.builtins.Funcs, n) == isBuiltinName(n)))
+
+//@ func (e *Evaluator) evalFunccall(funcCall *parser.FuncCall) (r value, err error)
+//@   props C10 C14 C09 C01 C02 C13
+//@   requires wf(parser.Node(funcCall)) && storeOK()
+//@   ensures[C02 store] storeOK()
+//@   ensures[C10 scope-restored] e.scope == old(e.scope)
+//@   ensures[C10 return-stays-inside] !is(r, *returnVal) && !is(r, *breakVal)
+//@   ensures[C01 arguments-first] ncalls("(*Evaluator).evalExprList") == 1
+//@   ensures[C02 error-no-value] err != nil ==> r == nil
+//@   ensures[C02 value-not-nil-pointer] r != nil ==> ref(r) != 0
+//@   modifies allbut evalFrame
+//@   propagates (*Evaluator).eval (*Evaluator).evalExprList
+//@   loop 1 invariant pending() == nil && storeOK() && e.scope != nil && e.scope.outer == e.global && -1 <= rangeindex && len(args) == len(funcCall.Arguments) && forall(i, int, 0 <= i && i < len(args) ==> okValue(args[i]))
